@@ -832,12 +832,21 @@ class Evaluator:
             if nb is not None and nb == 2:
                 return t_mul(a, a)
             return ("pow", a, b)
+        if isinstance(op, (ast.BitXor, ast.BitOr, ast.BitAnd, ast.LShift, ast.RShift)):
+            ia, ib = _int_const(a), _int_const(b)
+            if ia is not None and ib is not None and not (isinstance(op, (ast.LShift, ast.RShift)) and not 0 <= ib <= 64):
+                r = ia ^ ib if isinstance(op, ast.BitXor) else ia | ib if isinstance(op, ast.BitOr) else ia & ib if isinstance(op, ast.BitAnd) else ia << ib if isinstance(op, ast.LShift) else ia >> ib
+                return lin({}, Fraction(r))
         if isinstance(op, ast.BitXor):
             return ("xor", tuple(sorted([a, b], key=repr)))
         if isinstance(op, ast.BitOr):
             return ("bitor", tuple(sorted([a, b], key=repr)))
         if isinstance(op, ast.BitAnd):
             return ("bitand", tuple(sorted([a, b], key=repr)))
+        if isinstance(op, ast.LShift):
+            return ("lshift", a, b)
+        if isinstance(op, ast.RShift):
+            return ("rshift", a, b)
         raise Unsupported(f"operator {type(op).__name__}")
 
     def expr(self, e: ast.expr, fr: Frame) -> Term:
@@ -858,7 +867,17 @@ class Evaluator:
                 if isinstance(v0, ast.Call) and isinstance(v0.func, ast.Name) and v0.func.id == "object" and not v0.args and not v0.keywords:
                     # a module-level ``object()`` is one particular object: a marker compared by identity
                     return ("sentinel", f"{tgt[2].name}.{e.id}")
-                return self.expr(tgt[1], Frame(None, tgt[2], {}, None, fr.depth + 1))
+                v1 = self.expr(tgt[1], Frame(None, tgt[2], {}, None, fr.depth + 1))
+                ups = getattr(tgt[2], "sub_assigns", {}).get(e.id) if tgt[2].assigns.get(e.id) is tgt[1] else None
+                if ups:
+                    v1 = _plain_display(v1)
+                    if v1[0] != "dict":
+                        raise Unsupported(f"module-level item assignment to {e.id}, which is not read as a dict display")
+                    for k_node, v_node in ups:
+                        fr2 = Frame(None, tgt[2], {e.id: v1}, None, fr.depth + 1)
+                        kk, vv = self.expr(k_node, fr2), self.expr(v_node, fr2)
+                        v1 = ("dict", tuple((a, b) for a, b in v1[1] if a != kk) + ((kk, vv),))
+                return v1
             return ("global", e.id)
         if isinstance(e, ast.Attribute):
             base = self.expr(e.value, fr)
@@ -1349,7 +1368,15 @@ class Evaluator:
                 return ("const", base[2])
             c = self.model.maybe_cls(base[1])
             if c is not None and base[2] in c.class_attrs:
-                return self.expr(c.class_attrs[base[2]], Frame(None, c.module, {}, c, fr.depth + 1))
+                vn = c.class_attrs[base[2]]
+                if isinstance(vn, ast.Call) and ((isinstance(vn.func, ast.Name) and vn.func.id == "auto") or (isinstance(vn.func, ast.Attribute) and vn.func.attr == "auto")) and not vn.args:
+                    # enum.auto(): 1, 2, 3, ... in definition order (all members of this repository's enumerations that use auto() use it throughout)
+                    names = [n for n in c.class_attrs.keys() if not n.startswith("_")]
+                    autos = [isinstance(c.class_attrs[n], ast.Call) for n in names]
+                    if all(autos):
+                        return lin({}, Fraction(names.index(base[2]) + 1))
+                    raise Unsupported(f"value of {base[1]}.{base[2]}: auto() mixed with explicit values")
+                return self.expr(vn, Frame(None, c.module, {}, c, fr.depth + 1))
         if base[0] == "new":
             for k, v in base[2]:
                 if k == name:
@@ -1497,6 +1524,8 @@ class Evaluator:
                 if n == "len" and len(args) == 1:
                     a = args[0]
                     if a[0] in ("list", "tuple") and not any(x[0] == "star" for x in a[1]):
+                        return lin({}, Fraction(len(a[1])))
+                    if a[0] == "dict" and len({k_ for k_, _ in a[1]}) == len(a[1]) and all(k_[0] in ("enum", "const", "lin", "cls") for k_, _ in a[1]):
                         return lin({}, Fraction(len(a[1])))
                     return ("call", "len", (a,), ())
                 if n in ("sorted", "frozenset", "set") and len(args) == 1 and not kwargs \
@@ -1936,6 +1965,19 @@ def outcomes_to_cases(outs: List[Outcome]) -> List[Tuple[Term, str, Optional[Ter
     return [(o.cond, o.kind, o.value) for o in outs]
 
 
+def _int_const(t) -> Optional[int]:
+    n = number(t) if isinstance(t, tuple) else None
+    if n is None or (t[0] == "const" and isinstance(t[1], bool)):
+        return None
+    return int(n) if (isinstance(n, int) or n.denominator == 1) else None
+
+
+def _plain_display(t):
+    while isinstance(t, tuple) and t and t[0] == "var" and len(t) == 4:
+        t = t[3]
+    return t
+
+
 def subst(t, mapping: Dict[Term, Term]):
     """Replace sub-terms and re-normalise through the smart constructors."""
     if not isinstance(t, tuple) or not t:
@@ -1965,7 +2007,30 @@ def subst(t, mapping: Dict[Term, Term]):
         return t_or(*[subst(x, mapping) for x in t[1]])
     if k == "ite":
         return t_ite(subst(t[1], mapping), subst(t[2], mapping), subst(t[3], mapping))
-    if k in ("max", "min", "xor", "bitor", "bitand"):
+    if k in ("xor", "bitor", "bitand"):
+        xs = [subst(x, mapping) for x in t[1]]
+        ints = [_int_const(x) for x in xs]
+        if all(i is not None for i in ints) and ints:
+            acc = ints[0]
+            for i in ints[1:]:
+                acc = acc ^ i if k == "xor" else acc | i if k == "bitor" else acc & i
+            return lin({}, Fraction(acc))
+        return (k, tuple(sorted(xs, key=repr)))
+    if k in ("lshift", "rshift"):
+        a, b = subst(t[1], mapping), subst(t[2], mapping)
+        ia, ib = _int_const(a), _int_const(b)
+        if ia is not None and ib is not None and 0 <= ib <= 64:
+            return lin({}, Fraction(ia << ib if k == "lshift" else ia >> ib))
+        return (k, a, b)
+    if k == "sub":
+        base, idx = subst(t[1], mapping), subst(t[2], mapping)
+        b0 = _plain_display(base)
+        if b0[0] == "dict" and idx[0] in ("enum", "const", "lin", "cls"):
+            for kk, vv in b0[1]:
+                if kk == idx:
+                    return vv
+        return ("sub", base, idx)
+    if k in ("max", "min"):
         return (k, tuple(sorted((subst(x, mapping) for x in t[1]), key=repr)))
     if k == "bag":
         return (k, t[1], tuple(sorted((subst(x, mapping) for x in t[2]), key=repr)))
@@ -1976,6 +2041,8 @@ def subst(t, mapping: Dict[Term, Term]):
             return lin({}, Fraction(int(a[1]))) if r[1] != "bool" else a
         if number(a) is not None and r[1] == "float":
             return a
+        if r[1] == "bool" and _int_const(a) is not None:
+            return TRUE if _int_const(a) != 0 else FALSE
     return r
 
 
